@@ -133,6 +133,13 @@ pub fn new_issuer(alg: Alg, key: KeyId) -> SDJWTIssuer {
     SDJWTIssuer::new(issuer_enc(alg, key), Some(alg.name().to_string()))
 }
 
+/// An issuer whose algorithm name does not fit its key (or names no algorithm at all): issuance
+/// runs normally up to the signature and fails there.
+pub fn new_issuer_failing_at_signature(alg: Alg, key: KeyId, unknown_name: bool) -> SDJWTIssuer {
+    let name = if unknown_name { "ES256-then-some" } else if alg.name() == "RS256" { "ES256" } else { "RS256" };
+    SDJWTIssuer::new(issuer_enc(alg, key), Some(name.to_string()))
+}
+
 pub fn issue_with(issuer: &mut SDJWTIssuer, spec: &IssueSpec) -> Out<String> {
     guarded(|| {
         with_strategy(&spec.strat, |s| {
